@@ -225,11 +225,12 @@ def _same_file_pair(job):
     import contextlib, io, logging
     logging.disable(logging.CRITICAL)
     outs = []
+    client = HipRaXClient()      # ONE client serves both requests (an answer remembered for the path must not be served for the rewritten file)
     for p in (base, part):
         Path(path).write_text(geo.params_to_text(p))
         with geo.preserved_process_state(), contextlib.redirect_stdout(io.StringIO()), contextlib.redirect_stderr(io.StringIO()):
             try:
-                res = HipRaXClient().get_hip_ra_result(HipRaInputParameters(Path(path)))
+                res = client.get_hip_ra_result(HipRaInputParameters(Path(path)))
                 outs.append(Path(res.output_file_path).read_text())
             except Exception as e:  # noqa
                 outs.append(f'ERROR {e}')
